@@ -261,6 +261,10 @@ fn run(ctx: &mut Ctx) {
     if ctx.nviolations() > 0 {
         return;
     }
+    recorded_family(ctx);
+    if ctx.nviolations() > 0 {
+        return;
+    }
     // prisms over every euclidean 2-dimensional symbol of size <= 4 [5] (12 [15] chambers): all wallpaper groups
     // times the infinite dihedral group, in the harness's numbering and under renumberings
     for t in euclidean_2d_symbols(tier.pick(4, 5)) {
@@ -271,6 +275,72 @@ fn run(ctx: &mut Ctx) {
             if valid_symbol(&p).is_ok() && p.commutes() && admissible3d(&p) {
                 ctx.add("prisms", 1);
                 check_symbol_opts(ctx, "prism", &p, false, !tier.is_thorough() || p.n > 6);
+            }
+        }
+    }
+}
+
+/// Recorded inputs (found by the second C17 baseline hunter; text forms under /verif/data): two one-tile cell
+/// structures of the 3-torus with 116 and 136 chambers on which simplify used to accept a cut that does not
+/// separate the glued face from its partner (verdict No, its dual Yes), and the connected sum of a 3-torus with the
+/// Poincare homology sphere (264 chambers) and its dual, on which is_euclidean used to panic because the
+/// simplified cover is disconnected.  Each is checked like any other symbol at the default schedule: a verdict
+/// without a panic, the same class for three renumberings and the dual; the tori also under 12 affine renumberings
+/// and for their covers with 2 sheets.
+fn recorded_family(ctx: &mut Ctx) {
+    let dir = std::path::Path::new(&verif_dir()).join("data");
+    for (file, torus) in [("c17_torus_116.txt", true), ("c17_torus_136.txt", true), ("c17_torus_sum_poincare_264.txt", false), ("c17_torus_sum_poincare_dual_264.txt", false)] {
+        if !ctx.take() {
+            continue;
+        }
+        let text = match std::fs::read_to_string(dir.join(file)) {
+            Ok(t) => t,
+            Err(_) => {
+                ctx.cap_hit(format!("{} is missing: the recorded input was NOT run", file));
+                continue;
+            }
+        };
+        let s = match text.trim().parse::<rust_dsymbols::dsyms::PartialDSym>().ok().and_then(|p| from_dsym(&p)) {
+            Some(s) => s,
+            None => {
+                ctx.cap_hit(format!("{} does not parse: the recorded input was NOT run", file));
+                continue;
+            }
+        };
+        ctx.add("recorded_inputs", 1);
+        check_symbol_opts(ctx, "recorded", &s, false, true);
+        if ctx.nviolations() > 0 {
+            return;
+        }
+        if torus {
+            fn gcd(a: usize, b: usize) -> usize {
+                if b == 0 { a } else { gcd(b, a % b) }
+            }
+            let base = verdict(&s);
+            let n = s.n;
+            let coprime: Vec<usize> = (2..n).filter(|&a| gcd(a, n) == 1).collect();
+            let step = (coprime.len() / 12).max(1);
+            let mut variants: Vec<(String, RS)> = coprime.iter().step_by(step).take(12).map(|&a| {
+                let p: Vec<usize> = (0..n).map(|d| (a * d + 7 * a + 3) % n).collect();
+                (format!("affine renumbering {}d+{}", a, (7 * a + 3) % n), s.relabel(&p))
+            }).collect();
+            if let Ok(list) = std::panic::catch_unwind(std::panic::AssertUnwindSafe(|| covers(&to_partial_dsym(&s), 2))) {
+                for c in list.iter().filter_map(|x| from_dsym(x)) {
+                    if c.n == 2 * n && c.is_connected() {
+                        variants.push(("2-sheeted cover".into(), c));
+                    }
+                }
+            }
+            for (what, t) in variants {
+                let vcase = json!({"family": "recorded", "sym": rs_to_json(&s), "variant": what, "variant_sym": rs_to_json(&t)});
+                ctx.announce(&vcase);
+                ctx.ops(1);
+                let v = verdict(&t);
+                let contradiction = matches!((base.class(), v.class()), ('Y', 'N') | ('N', 'Y'));
+                if v.class() == 'P' || (what.starts_with("affine") && v.class() != base.class()) || contradiction {
+                    ctx.violation(if what.starts_with("affine") { "not-invariant" } else { "cover-contradiction" }, vcase, format!("verdict {:?} for the symbol, {:?} for its {}", base, v, what), n as u64);
+                    return;
+                }
             }
         }
     }
@@ -431,6 +501,18 @@ fn replay(ctx: &mut Ctx, case: &Value) {
     if case["family"].as_str() == Some("call-sequence") {
         // the whole sequence is the case (the verdicts depend on what was asked before)
         call_sequence_family(ctx);
+        return;
+    }
+    if case["family"].as_str() == Some("recorded") {
+        if let Some(s) = rs_from_json(&case["sym"]) {
+            check_symbol_opts(ctx, "recorded", &s, false, true);
+            if let Some(t) = rs_from_json(&case["variant_sym"]) {
+                let (b, v) = (verdict(&s), verdict(&t));
+                if b.class() != v.class() {
+                    ctx.violation("not-invariant", case.clone(), format!("verdict {:?} for the symbol, {:?} for its variant", b, v), s.n as u64);
+                }
+            }
+        }
         return;
     }
     if case["family"].as_str() == Some("corpus-relabelings") {
